@@ -38,20 +38,34 @@ func verifNewMem(maxEntries int64) *ChunkCacheInMemory { return &ChunkCacheInMem
 
 var verifVolSeq int
 
-// cache volumes: in-memory data file + the in-memory needle map instead of the LevelDB one
+// cache volumes: the loader with the in-memory needle map instead of the LevelDB one; like the real
+// loader it keeps what the .dat and .idx files already hold (a reset volume is reopened by name)
 //verif:redirect github.com/chrislusf/seaweedfs/weed/util/chunk_cache.LoadOrCreateChunkCacheVolume verifNewCacheVolume
 func verifNewCacheVolume(fileName string, preallocate int64) (*ChunkCacheVolume, error) {
 	verifVolSeq++
-	idx, err := os.OpenFile(fileName+".idx", os.O_RDWR|os.O_CREATE|os.O_TRUNC, 0644)
+	dat, err := os.OpenFile(fileName+".dat", os.O_RDWR|os.O_CREATE, 0644)
+	if err != nil {
+		return nil, err
+	}
+	st, err := dat.Stat()
+	if err != nil {
+		return nil, err
+	}
+	idx, err := os.OpenFile(fileName+".idx", os.O_RDWR|os.O_CREATE, 0644)
+	if err != nil {
+		return nil, err
+	}
+	nm, err := storage.LoadCompactNeedleMap(idx)
 	if err != nil {
 		return nil, err
 	}
 	return &ChunkCacheVolume{
-		DataBackend: &backend.VerifMemFile{FileName: fileName + ".dat"},
-		nm:          storage.NewCompactNeedleMap(idx),
+		DataBackend: backend.NewDiskFile(dat),
+		nm:          nm,
 		fileName:    fileName,
 		smallBuffer: make([]byte, types.NeedlePaddingSize),
 		sizeLimit:   preallocate,
+		fileSize:    st.Size(),
 	}, nil
 }
 
@@ -127,4 +141,32 @@ func verifCheckServed(fid string, wasStored bool, got, want []byte, off int) {
 		ok = rt.BytesEq(got, want[off:off+len(got)])
 	}
 	rt.Assert(ok, tag)
+}
+
+// C31 (rotation): one on-disk layer of two small volumes is filled past its capacity several times
+// (so the oldest volume is reset and reused); after every store, every file id stored so far reads as
+// nothing or exactly its own bytes, also after the layer is reopened from its files.
+func VerifC31_Rotation() {
+	dir := rt.TempDir()
+	layer := verifLayer(dir, "r_", 2, 16)
+	n := rt.Param("stores", 7)
+	var contents [][]byte
+	check := func() {
+		for k, want := range contents {
+			got := layer.getChunk(types.NeedleId(k + 1))
+			if got != nil {
+				rt.Assert(rt.BytesEq(got, want), "rotated-cache-serves-only-the-bytes-stored-under-that-id")
+			}
+		}
+	}
+	for i := 0; i < n; i++ {
+		data := rt.Bytes("chunk", 3)
+		contents = append(contents, data)
+		layer.setChunk(types.NeedleId(i+1), data)
+		check()
+	}
+	rt.Cover("rotated")
+	layer.shutdown()
+	layer = verifLayer(dir, "r_", 2, 16)
+	check()
 }
